@@ -89,16 +89,30 @@ class Scenario:
             " < ".join("=".join(g) for g in groups))
 
 
+class _Marker:
+    def __init__(self, name):
+        self.name = name
+
+    def __repr__(self):
+        return "<%s>" % self.name
+
+
+TZIFY = _Marker("tzify")
+COMP = _Marker("component")
+
+
 class Interp:
-    def __init__(self, fn: ast.FunctionDef, sc: Scenario, where: str):
+    def __init__(self, fn: ast.FunctionDef, sc: Scenario, where: str, resolver=None):
         self.fn = fn
         self.sc = sc
         self.where = where
+        self.resolver = resolver      # dotted callee name -> FunctionDef of a helper in the same module (or None)
+        self.depth = 0
         a = fn.args.args
         if len(a) != 4:
             raise AnalysisError("%s: expected (start, end, comp, tzify), got %d parameters" % (where, len(a)))
         self.p_start, self.p_end, self.p_comp, self.p_tzify = [x.arg for x in a]
-        self.env: Dict[str, object] = {self.p_start: Term("start"), self.p_end: Term("end")}
+        self.env: Dict[str, object] = {self.p_start: Term("start"), self.p_end: Term("end"), self.p_comp: COMP, self.p_tzify: TZIFY}
 
     def fail(self, node, why):
         raise AnalysisError("%s: unmodelled construct `%s` (%s)" % (self.where, src(node)[:60], why))
@@ -107,9 +121,10 @@ class Interp:
         try:
             self.block(self.fn.body)
         except Returned as r:
-            if not isinstance(r.value, bool):
+            v = self.as_bool(r.value, self.fn) if r.value is not None else None
+            if not isinstance(v, bool):
                 self.fail(self.fn, "non-boolean result %r" % (r.value,))
-            return r.value
+            return v
         except Raised as r:
             if r.exc == "MissingProperty":
                 return False
@@ -139,7 +154,7 @@ class Interp:
                 self.block(s.orelse)
             return
         if isinstance(s, ast.Return):
-            raise Returned(self.as_bool(self.ev(s.value), s) if s.value is not None else None)
+            raise Returned(self.ev(s.value) if s.value is not None else None)
         if isinstance(s, ast.Raise):
             raise Raised((dotted(s.exc.func) if isinstance(s.exc, ast.Call) else dotted(s.exc)) or "?")
         if isinstance(s, ast.For):
@@ -206,6 +221,8 @@ class Interp:
             if e.id in self.env:
                 return self.env[e.id]
             self.fail(e, "unknown name")
+        if isinstance(e, ast.IfExp):
+            return self.ev(e.body) if self.truth(self.ev(e.test), e.test) else self.ev(e.orelse)
         if isinstance(e, ast.UnaryOp) and isinstance(e.op, ast.Not):
             return not self.truth(self.ev(e.operand), e)
         if isinstance(e, ast.BoolOp):
@@ -253,7 +270,8 @@ class Interp:
             self.fail(e, "addition of %r and %r" % (l, r))
         if isinstance(e, ast.Call):
             d = dotted(e.func) or ""
-            if d == self.p_comp + ".get" and e.args and isinstance(e.args[0], ast.Constant):
+            if isinstance(e.func, ast.Attribute) and e.func.attr == "get" and isinstance(e.func.value, ast.Name) \
+                    and self.env.get(e.func.value.id) is COMP and e.args and isinstance(e.args[0], ast.Constant):
                 name = e.args[0].value
                 if name == "FREEBUSY":
                     if name in self.sc.present and self.sc.has_period:
@@ -262,7 +280,7 @@ class Interp:
                 if name in self.sc.present:
                     return Prop(name)
                 return self.ev(e.args[1]) if len(e.args) > 1 else None
-            if d == self.p_tzify and len(e.args) == 1:
+            if isinstance(e.func, ast.Name) and self.env.get(e.func.id) is TZIFY and len(e.args) == 1:
                 v = self.ev(e.args[0])
                 if isinstance(v, DtValue):
                     return Term(v.name)
@@ -292,6 +310,28 @@ class Interp:
                 if isinstance(base, DtValue) and base.name == "DTSTART" and (dotted(e.args[1]) or "").split(".")[-1] == "datetime":
                     return self.sc.isdt
                 self.fail(e, "isinstance")
+            helper = self.resolver(d) if self.resolver is not None else None
+            if helper is not None and not e.keywords and self.depth < 4:
+                a = helper.args
+                if a.vararg or a.kwarg or a.kwonlyargs or len(a.args) < len(e.args) or len(a.args) - len(a.defaults) > len(e.args):
+                    self.fail(e, "helper call shape")
+                vals = [self.ev(x) for x in e.args]
+                saved = self.env
+                self.env = {}
+                for p_, v_ in zip(a.args, vals):
+                    self.env[p_.arg] = v_
+                for p_, dflt in zip(a.args[len(a.args) - len(a.defaults):], a.defaults):
+                    if p_.arg not in self.env:
+                        self.env[p_.arg] = self.ev(dflt)
+                self.depth += 1
+                try:
+                    self.block(helper.body)
+                    return None
+                except Returned as r:
+                    return r.value
+                finally:
+                    self.depth -= 1
+                    self.env = saved
             self.fail(e, "call")
         if isinstance(e, ast.List) and not e.elts:
             return []
